@@ -65,6 +65,17 @@ def run(R):
             one(rng.randbytes(n))
             R.cover('long_lengths', n)
             R.count('long_inputs')
+    # every kind of byte string the functions accept: bytes, bytearray, memoryview (also of a larger buffer, and read-only / writable)
+    for n in (0, 1, 4, 9, 64, 4097):
+        d = rng.randbytes(n)
+        big = bytearray(b'\xAA' * 7 + d + b'\x55' * 5)
+        forms = [('bytes', d), ('bytearray', bytearray(d)), ('memoryview', memoryview(d)), ('memoryview-of-bytearray', memoryview(bytearray(d))), ('memoryview-slice', memoryview(big)[7:7 + n])]
+        w16, w32 = crcref.crc16_xmodem(d).to_bytes(2, 'big'), crcref.crc32c(d)
+        for fname, x in forms:
+            st, got = mon.call(lambda: (crc16(x), crc32c(x), crc32c(x, 'big')))
+            R.check(st == 'ok' and got == (w16, w32.to_bytes(4, 'little'), w32.to_bytes(4, 'big')), f'crc-input-type-{fname}', f'crc16/crc32c of a {fname} of {n} bytes: {mon.srepr(got, 60)}',
+                    {'data': d[:64], 'len': n, 'form': fname})
+            R.count('input_type_cases')
     # the same data again with the other byte order / the other function first: a result depends on the arguments of the call only
     for n in (0, 1, 9, 300, 5001):
         d = rng.randbytes(n)
